@@ -381,19 +381,18 @@ Variable dbg : bool.
 Variable shs : spec_host -> list N.
 
 (* base with authority: the record with the replaced path *)
-Theorem related_auth_path b sb h Pn q f :
-  related dbg shs b sb -> is_special_scheme (su_scheme sb) = false -> su_host sb = Some h ->
-  forallb no_qh (flat_map (fun s => 47 :: s) Pn) = true -> Pn <> [] -> opt_clean T_QUERY q ->
+Theorem related_auth_path_g b sb h Pn q f :
+  related dbg shs b sb -> su_scheme sb <> str_file -> su_host sb = Some h ->
+  forallb no_qh (flat_map (fun s => 47 :: s) Pn) = true -> Pn <> [] ->
+  match q with Some Q => forallb no_h Q = true | None => True end ->
   related dbg shs (auth_path_url b (flat_map (fun s => 47 :: s) Pn) q f) (rel_url sb Pn q f).
 Proof.
-  intros R Hnsp Eh HT HPn Hq.
+  intros R Hnsp Eh HT HPn Hq'.
   pose proof (rel_wf _ _ _ _ R) as W.
   assert (has_authority_b b = true) as Ha by (rewrite (related_host_iff dbg shs b sb R), Eh; reflexivity).
   set (T := flat_map (fun s => 47 :: s) Pn) in *.
   assert (T = [] \/ exists r, T = 47 :: r) as HT2.
   { right. unfold T. destruct Pn as [|p0 Pr]; [contradiction|]. eexists. reflexivity. }
-  assert (match q with Some Q => forallb no_h Q = true | None => True end) as Hq'.
-  { destruct q as [Q|]; [|exact I]. exact (clean_query_no_h STNotSpecial Q Hq). }
   destruct (auth_path_record dbg b T q f W Ha HT HT2 Hq') as (W' & SF & Pth & Qy & Fr).
   assert (ser (auth_path_url b T q f) = (nfirstn (path_start b) (ser b) ++ T) ++ qf_text q f) as EsU by reflexivity.
   assert (query_start (auth_path_url b T q f) = qf_qs (nlen (nfirstn (path_start b) (ser b) ++ T)) q) as EqU by reflexivity.
@@ -453,7 +452,17 @@ Proof.
   - (* scheme *)
     transitivity (b_scheme b); [|exact (rel_sch _ _ _ _ R)]. unfold b_scheme. rewrite EseU.
     apply (pre_firstn _ _ _ _ Pre). lia.
-  - split; [intros H; discriminate H|]. cbn [su_scheme rel_url]. intros H. rewrite H in Hnsp. discriminate Hnsp.
+  - split; [intros H; discriminate H|]. cbn [su_scheme rel_url]. intros H. contradiction.
+Qed.
+
+Theorem related_auth_path b sb h Pn q f :
+  related dbg shs b sb -> is_special_scheme (su_scheme sb) = false -> su_host sb = Some h ->
+  forallb no_qh (flat_map (fun s => 47 :: s) Pn) = true -> Pn <> [] -> opt_clean T_QUERY q ->
+  related dbg shs (auth_path_url b (flat_map (fun s => 47 :: s) Pn) q f) (rel_url sb Pn q f).
+Proof.
+  intros R Hnsp Eh HT HPn Hq. apply (related_auth_path_g b sb h Pn q f R); try assumption.
+  - intros H. rewrite H in Hnsp. discriminate Hnsp.
+  - destruct q as [Q|]; [|exact I]. exact (clean_query_no_h STNotSpecial Q Hq).
 Qed.
 
 End Transport.
